@@ -404,3 +404,62 @@ func (e *c06Env) openPair(a, b c06Op) (toks [2]string, sts [2]*c06Stream) {
 	toks[0], toks[1] = sa.openToken(), sb.openToken()
 	return
 }
+
+// feedCancel: the request body of stream `id` (a request with trailers) hands its writer its last
+// octets; the writer sends them (the windows allow it by the peer's books) and starts on the
+// trailer block, where it is parked after `cut` payload octets; the request is cancelled; the
+// writer is let go. The whole block must still go out, then RST_STREAM.
+func (e *c06Env) feedCancel(id uint32, n, cut int) string {
+	st := e.streams[id]
+	e.gate.arm(c06KindBlock, cut)
+	defer e.gate.disarm()
+	st.body.gate <- n
+	select {
+	case got := <-st.body.readDone:
+		st.released += int64(got)
+	case <-time.After(c06Wait):
+		e.timeouts++
+		e.cur = append(e.cur, "T")
+	}
+	if !e.gate.waitParked(c06Wait) {
+		e.timeouts++ // the trailer block is longer than the cut by construction
+		e.cur = append(e.cur, "T")
+	}
+	live := !st.dead()
+	st.aborted = true
+	st.cancel()
+	if !st.gotRes {
+		select {
+		case r := <-st.respCh:
+			st.gotRes, st.res = true, r.res
+		case <-time.After(c06Wait):
+			e.timeouts++
+			e.cur = append(e.cur, "T")
+		}
+	}
+	time.Sleep(time.Millisecond)
+	e.gate.disarm()
+	e.waitDone(st)
+	e.afterOp(live)
+	return fmt.Sprintf("tc:%d:%d:%d", id, n, cut)
+}
+
+// lastFeed: by the peer's books, would a feed of n octets hand the writer the rest of the body
+// and could the writer send all of it now?
+func (e *c06Env) lastFeed(st *c06Stream, n int) bool {
+	k := int64(n)
+	st.body.mu.Lock()
+	lim, rem := int64(st.body.limit), int64(st.body.remain)
+	st.body.mu.Unlock()
+	if k == 0 || (lim > 0 && k > lim) {
+		k = lim
+	}
+	if k < rem || rem == 0 {
+		return false
+	}
+	w := st.win
+	if e.connWin < w {
+		w = e.connWin
+	}
+	return w >= rem
+}
